@@ -107,7 +107,23 @@ def _c18_viol(res):
     return v
 
 
+def _c17_viol(res):
+    v = []
+    st = res["determinism"]
+    seen = set()
+    for b in st.get("bad", []):
+        a, c = b[0], b[1]
+        key = (a.split("/")[0], a.split("/")[1], b[2], b[3])
+        if key in seen:
+            continue
+        seen.add(key)
+        v.append(dict(stage="determinism", id=a, what=[["outputs_differ", a, c]], kind="det:%s-%s" % (b[2], b[3]),
+                      events=[st["events"].get(a), st["events"].get(c)]))
+    return v
+
+
 PROPS = {
+    "C17": dict(stages=["determinism"], viol=_c17_viol),
     "C18": dict(stages=["regen"], viol=_c18_viol),
     "C16": dict(stages=["pipeline"], viol=_c16_viol),
     "C06": dict(stages=["lex"], viol=_c06_viol),
@@ -186,6 +202,8 @@ def check(work, prop, tier, seed, t0):
     nviol = 0
     for v in fresh:
         payload = ctx.replay_payload(prop, v)
+        if "events" in v:
+            payload["events"] = v["events"]
         key = json.dumps([v.get("kind"), sorted(w[0] for w in v["what"] if w), payload.get("grammar")], sort_keys=True)
         if key in seen and nviol >= 20:
             continue
